@@ -1,4 +1,5 @@
 import OrdModel.Proofs.Views
+import OrdModel.Proofs.ViewsLocated
 /-!
 # C18 — explorer JSON and recursive endpoints agree with the index
 
@@ -29,8 +30,8 @@ theorem c18_output_lists_entry_inscriptions (cfg : Cfg) (st : State) (op : OutPo
   outputView_inscriptions cfg st op node v hins h
 
 /-- The C04 statement "the satpoint table and the output lists say the same thing", in the form the
-view needs (it follows from `InsPartitioned` of `Theorems/C04.lean` when outpoint keys are unique;
-evaluated on every implementation state by `v.oracle.located`). -/
+view needs (it follows from `InsPartitioned` of `Theorems/C04.lean` when outpoint keys are unique:
+`c18_located_of_c04_invariant`; evaluated on every implementation state by `v.oracle.located`). -/
 def Located (st : State) : Prop :=
   ∀ op seq, (∃ e off, AL.get st.utxo op = some e ∧ (seq, off) ∈ e.ins) ↔
     (∃ sp, AL.get st.seq2sp seq = some sp ∧ sp.outpoint = op)
@@ -52,6 +53,12 @@ theorem c18_output_lists_located (cfg : Cfg) (st : State) (op : OutPoint) (node 
   · rintro ⟨seq, sp, hsp, ho, hid⟩
     obtain ⟨e, off, he, hin⟩ := (hloc op seq).mpr ⟨sp, hsp, ho⟩
     exact ⟨e, seq, off, he, hin, hid⟩
+
+/-- `Located` is the C04 invariant (`InsPartitioned`, `Theorems/C04.lean` / `OracleInsloc.lean`) read
+through `AL.get`, given unique outpoint keys in the UTXO table. -/
+theorem c18_located_of_c04_invariant (cfg : Cfg) (st : State) (h : Insloc.InsPartitioned cfg st)
+    (hu : (AL.keys st.utxo).Nodup) : Located st :=
+  located_of_insPartitioned cfg st h hu
 
 /-- `GET /output/<outpoint>` lists exactly the stored rune balance rows of the outpoint (C08's
 table), each shown with its rune entry's name, divisibility and symbol. -/
